@@ -24,7 +24,7 @@ var helperQueries = []string{
 	`anyOf(roles) = "r1" sort by name skip 1 limit 3`,
 	`name = "n2" and dept = "d1"`,
 	`true limit 2`,
-	`name = "n3" or nick = "k1" sort by name desc`,
+	`name = "n3" or alias = "k1" sort by name desc`,
 	`isEmpty(roles)`,
 	`anyOf(groups) = "g1"`,
 	`name = `,
@@ -44,7 +44,7 @@ var helperQueries = []string{
 	`anyOf(badges.id) = "b1"`,
 }
 
-var helperSymbols = []string{"name", "roles", "dept", "dept.name", "tags.tk1", "groups", "mentor.name", "nosuch", "badges", "id", "mentees.name", "isSystem"}
+var helperSymbols = []string{"name", "roles", "dept", "dept.name", "tags.tk1", "groups", "mentor.name", "nosuch", "badges", "id", "mentees.name", "isSystem", "alias"}
 
 func renderParse(store boltz.Store, text string) string {
 	q, err := ast.Parse(store, text)
